@@ -43,6 +43,15 @@ CLAIMED = {
    note="Trusted: Coq kernel + vm_compute; hand-written model (correspondence only); harness; TF RNG/resize/crop (mask range and shape checked at run time, "
         "distribution reported as support only); float32 tolerances tolA=tolB=5e-6 condition-scaled, exact query equality in the v=0 class; row-wise score.",
    design="5 (C09)", technique="Coq proof Model=Spec by induction over mask batches (pair fold -> vsum), lra/nra order lemmas; differential correspondence with recorded random masks (vm_compute)"),
+ "C04": dict(
+   text="Machine-checked proof that the executable model of IntegratedGradients.explain (interpolation, repeated labels, batched gradients with remainder "
+        "batches, regroup by steps, trapezoid, (x - baseline) product) equals the straight-path trapezoidal formula for every gradient function, batch size, "
+        "steps >= 2, baseline and N; the evaluated points are exactly the equally spaced path points with end points; completeness proved for the whole "
+        "quadratic family; for the cubic family the completeness gap is exactly K/(steps-1)^2 and strictly decreasing; tied to /repo by exact / tolerance "
+        "correspondence incl. recorded gradient queries and completeness of the implementation's own output.",
+   note="Trusted: Coq kernel + vm_compute; hand-written model (correspondence only); TF autodiff equals the closed-form gradients of the two polynomial families; "
+        "the 'all smooth models' clause is covered only by these families; float32 exact on dyadic inputs when steps-1 is a power of two else tol 1e-5 scaled.",
+   design="5 (C04)", technique="Coq proof Model=Spec (induction over chunks, ring/field/nra) + closed-form completeness theorems; differential correspondence (vm_compute)"),
 }
 PENDING_REASON = "check not built yet in this session (work in progress; planned in DESIGN.md section 5)"
 
